@@ -61,6 +61,8 @@ const EXT_PACKAGE: &str = r#"{
 /// and a supporting Assertion, and a contested functional slot: the rival
 /// tuples (a status "on") = P-2, supported by b, and (a status "off") = P-3,
 /// supported by a (`status` is declared `functional: true` in BASE_PACKAGE).
+/// A `rel` chain n -> a -> b -> d (P-6, P-7, P-8) for path walks in both
+/// directions, and a second structural source, the Insight m = C-5.
 /// A second subject shares the predicate: (b status "on") = P-4, which nobody
 /// asserted, and (b status "busy") = P-5, supported by b.
 pub const SEED: &str = r#"MUTATE {
@@ -70,11 +72,16 @@ pub const SEED: &str = r#"MUTATE {
     CREATE CONCEPT ?n { TYPE "Insight" NAME "Note" SET FIELDS {key: "n"} SET ATTRIBUTES {summary: "s"}
                         SET FACET "MnemonicState" {memory_strength: 0.8}
                         SET STRUCTURAL { ("about", ?d) ("mentions", ?a) } }
+    CREATE CONCEPT ?m { TYPE "Insight" NAME "Memo" SET FIELDS {key: "m"} SET ATTRIBUTES {summary: "t"}
+                        SET STRUCTURAL { ("about", ?a) ("mentions", ?b) ("derived_from", ?n) } }
     ENSURE PROPOSITION ?p (?a, "prefers", ?d)
     ENSURE PROPOSITION ?s (?a, "status", "on")
     ENSURE PROPOSITION ?s2 (?a, "status", "off")
     ENSURE PROPOSITION ?sb (?b, "status", "on")
     ENSURE PROPOSITION ?sb2 (?b, "status", "busy")
+    ENSURE PROPOSITION ?r1 (?n, "rel", ?a)
+    ENSURE PROPOSITION ?r2 (?a, "rel", ?b)
+    ENSURE PROPOSITION ?r3 (?b, "rel", ?d)
     CREATE EVIDENCE ?e { SET FIELDS {evidence_class: "user_statement", payload: "I prefer dark.", observed_at: "2026-01-01T00:00:00Z"} }
     CREATE ASSERTION ?as { SET FIELDS {proposition: ?p, asserted_by: ?a, stance: "support", mode: "stated",
                                        confidence: 0.9, asserted_at: "2026-01-02T00:00:00Z"}
@@ -329,9 +336,26 @@ impl Nx {
         self.q_params(text, None).await
     }
 
+    /// A read whose answer also carries the `schema_environment_version` of
+    /// the response context (`"env"`), optionally bound to a coordinate
+    /// through `read.snapshot_token` instead of an `AS OF` clause.
+    pub fn q_env(&self, text: &str, params: Option<&Map<String, Json>>, token: Option<&str>) -> Json {
+        block_on(self.q_request(text, params, token, true))
+    }
+
     async fn q_params(&self, text: &str, params: Option<&Map<String, Json>>) -> Json {
+        self.q_request(text, params, None, false).await
+    }
+
+    async fn q_request(&self, text: &str, params: Option<&Map<String, Json>>, token: Option<&str>, with_env: bool) -> Json {
         let mut request = Request::single(text);
         request.parameters = params.cloned();
+        if let Some(token) = token {
+            request.read = Some(anda_kip::ReadBinding {
+                snapshot_token: Some(token.to_string()),
+                ..Default::default()
+            });
+        }
         let parsed = match request.operations[0].parse() {
             Ok(parsed) => parsed,
             Err(err) => vcore::report::machinery(&format!("harness query does not parse: {text}\n{err}")),
@@ -340,7 +364,11 @@ impl Nx {
             vcore::report::machinery(&format!("harness query is not a read: {text}"));
         }
         let response = self.sys.execute(parsed, &request, &request.operations[0]).await;
-        answer(&response)
+        let mut out = answer(&response);
+        if with_env && let Some(version) = response.context.as_ref().and_then(|c| c.schema_environment_version) {
+            out["env"] = json!(version);
+        }
+        out
     }
 
     /// The host-API step "activate a schema lock" (not a KIP command).
